@@ -2,7 +2,7 @@ ENTRY = {
     "C03": {
         "pkg": ".", "hdir": "dastard", "harness": DASTARD_COMMON + ["zz_verif_c03_test.go"], "test": "TestVerifC03",
         "engines": ["vexp", "vhook"], "runtime_patch": True, "gomaxprocs": 2,
-        "quick": T(16, 90), "thorough": T(16, 900),
+        "quick": T(16, 180), "thorough": T(16, 900),
         "rule": "one execution = one (group layout, map-iteration seed, loss pattern, assignment of the surviving packets to read ticks) through the real AbacoSource.Sample, "
                 "PrepareChannels, PrepareRun, readerMainLoop, getNextBlock and distributeData with a scripted PacketProducer; every channel's output is compared sample by sample "
                 "with the packets that arrived, filler counts/positions, block lengths, frame numbers and the dropped-frame total are checked; "
